@@ -5,7 +5,7 @@ from .base import *
 
 # JSON objects of the configuration file, modelled as heap entities (obj['key'] reads the field `key`)
 REG.entities['MachineSpec'] = dict(flops='num', compute_bandwidth='num')
-REG.entities['PipelineSpec'] = dict(workflow='str', ingest_demand='num')
+REG.entities['PipelineSpec'] = dict(workflow='str', ingest_demand='int')
 REG.entities['ObsSpec'] = {
     'name': 'str', 'start': 'num', 'duration': 'num', 'instrument_demand': 'num', 'data_product_rate': 'num',
     'min_workflow_resources': 'num', 'max_workflow_resources': 'num',
@@ -138,7 +138,11 @@ OBS_FIELDS = ['name', 'buffer_id', 'cluster_id', 'est', 'ast', 'duration', 'dema
               'ingest_data_rate', 'timestep', 'status', 'min_resources', 'max_resources', 'plan']
 
 REG.contract('Config.parse_instrument_config', world=config_world, params={}, fix={'instrument_name': 'telescope'},
-    requires=lambda c: well_formed_json(c) + [('multiplier-nonzero', mult(unit(c)) != 0)],
+    requires=lambda c: well_formed_json(c) + [('multiplier-positive', mult(unit(c)) > 0), (
+        'durations-are-whole-multiples-of-the-unit', Q([('o', I)], lambda o: z3.Implies(
+            c.o.self.instrument['telescope']['observations'].count(o) > 0, z3.And(
+                z3.Select(c.o.heap('ObsSpec', 'duration'), o) >= 0,
+                z3.IsInt(z3.Select(c.o.heap('ObsSpec', 'duration'), o) / mult(unit(c)))))))],
     ensures=lambda c: [('C16-total-arrays-unscaled', c.result[0].t == c.o.self.instrument['telescope']['total_arrays'].t),
                        ('C16-max-ingest-unscaled', c.result[3].t == c.o.self.instrument['telescope']['max_ingest_resources'].t),
                        ('one-observation-per-entry', c.result[2].n == c.o.self.instrument['telescope']['observations'].n)],
